@@ -48,9 +48,10 @@ import (
 //	order       ReapMaxTxs(n) is a prefix of ReapMaxTxs(-1) (v0: of the list order) of the right length
 //
 // The contents themselves depend on how far the answers had come when later requests were queued and are not
-// predicted. mempool v1 checks new transactions outside its lock (listed finding C05-v1-checktx-outside-lock): an
-// admission that was in flight during the commit can land after Update; "gone" is reported for v1 only while
-// that finding is not listed.
+// predicted. mempool v1 checks new transactions outside its lock: an admission or rejection that was in flight
+// during the commit can land after Update (finding C12-v1-inflight-across-update; same root cause as
+// C05-v1-checktx-outside-lock, which stands in for it until the C12 entry is listed). "gone" and "remembered"
+// are reported for v1 only while neither is listed; everything else is asserted for v1 regardless.
 const idV1Outside = "C05-v1-checktx-outside-lock"
 
 var latencyChoices = []int{0, 0, 1, 1, 20, 60, 200, 600}
@@ -96,6 +97,13 @@ func startSocketApp(a abci.Application) (*asyncEnv, error) {
 		return nil, err
 	}
 	return &asyncEnv{cli: cli, stop: func() {
+		// Nothing may be outstanding on the connection when the client stops: the socket client completes the
+		// requests it has sent a second time if their answers arrive while it shuts down (negative WaitGroup
+		// counter on its receive goroutine, which would take the test process down). Besides the harness's own
+		// requests there can be one the client sends by itself: its 20 ms auto-flush. Drain twice.
+		_ = cli.FlushSync()
+		runtime.Gosched()
+		_ = cli.FlushSync()
 		_ = cli.Stop()
 		_ = srv.Stop()
 		os.RemoveAll(dir)
@@ -109,9 +117,10 @@ func TestAsyncClientCommit(t *testing.T) {
 func runAsync(rt *rapid.T) {
 	const test = "TestAsyncClientCommit"
 	v1 := rapid.IntRange(0, 2).Draw(rt, "v1") == 0
-	if v1 && lib.IsKnown(idV1Outside) && rapid.IntRange(0, 3).Draw(rt, "probeListedFinding") != 0 {
+	listedID, listed := v1InflightListed()
+	if v1 && listed && rapid.IntRange(0, 3).Draw(rt, "probeListedFinding") != 0 {
 		// the listed v1 finding blunts the main statement there; spend most of the budget on v0
-		lib.ExcludedByKnown(idV1Outside)
+		lib.ExcludedByKnown(listedID)
 		v1 = false
 	}
 	c := genConf(rt, v1)
@@ -164,7 +173,8 @@ func runAsync(rt *rapid.T) {
 
 	height := c.InitHeight
 	var lastBlock []int
-	sent := 0 // first-time CheckTx requests handed to the application connection (v0)
+	sent := 0     // first-time CheckTx requests handed to the application connection (v0)
+	expectRe := 0 // rechecks started by the Updates so far
 	inflightHits, roundsWithInflight, v1Late := 0, 0, 0
 	rounds := rapid.IntRange(1, 4).Draw(rt, "rounds")
 	for round := 0; round < rounds; round++ {
@@ -277,12 +287,28 @@ func runAsync(rt *rapid.T) {
 			infra("FlushAppConn", err)
 		}
 		err := s.mp.Update(height, btxs, resps, nil, nil)
+		if c.Recheck {
+			expectRe += s.mp.Size() // still under the lock: exactly these txs are sent for a recheck
+		}
 		s.mp.Unlock()
 		if err != nil {
 			fail("Update: %v", err)
 		}
 		// ---- settle
 		wg.Wait()
+		if v1 {
+			// v1 rechecks on goroutines of its own: first let the application answer every recheck that Update
+			// started, so that no request is outstanding on the connection when it is eventually closed
+			for deadline := time.Now().Add(quiesceTimeout); ; {
+				if _, re, _ := a.counts(); re >= expectRe {
+					break
+				}
+				if time.Now().After(deadline) {
+					infra("v1 recheck", fmt.Errorf("the application saw fewer rechecks than Update started (want %d)", expectRe))
+				}
+				time.Sleep(50 * time.Microsecond)
+			}
+		}
 		if err := env.cli.FlushSync(); err != nil {
 			infra("FlushSync", err)
 		}
@@ -335,8 +361,8 @@ func runAsync(rt *rapid.T) {
 				if !(allOK(i) && sureRemembered) {
 					continue // a v1 call may have begun after Unlock and the cache need not remember this tx
 				}
-				if lib.IsKnown(idV1Outside) {
-					lib.ObservedKnown(idV1Outside)
+				if listed {
+					lib.ObservedKnown(listedID)
 					v1Late++
 					continue
 				}
@@ -397,10 +423,10 @@ func runAsync(rt *rapid.T) {
 				infra("FlushSync", ferr)
 			}
 			logf("CheckTx(%c) again -> %s", letter(i), errKind(err))
-			if v1 && lib.IsKnown(idV1Outside) && (err == nil || (!was && inPool(txs[i]))) {
+			if v1 && listed && (err == nil || (!was && inPool(txs[i]))) {
 				// listed finding: an answer that was in flight during the commit landed after Update and made the
 				// cache forget the tx (late rejection / late drop)
-				lib.ObservedKnown(idV1Outside)
+				lib.ObservedKnown(listedID)
 				v1Late++
 				continue
 			}
